@@ -166,6 +166,13 @@ theorem source_ufloat64Parts (f : UInt64) :
 theorem source_ufloat64FromParts (e : Int32) (si sf : UInt64) :
     Translated.ufloat64FromParts e si sf = fmt64.ufromParts e.toInt si sf := tr_fromParts64 e si sf
 
+theorem source_ufloat32Parts (f : UInt32) :
+    ((Translated.ufloat32Parts f).1.toInt, (Translated.ufloat32Parts f).2.1, (Translated.ufloat32Parts f).2.2) = fmt32.parts f.toUInt64 :=
+  tr_parts32 f
+
+theorem source_ufloat32FromParts (e : Int32) (si sf : UInt64) :
+    (Translated.ufloat32FromParts e si sf).toUInt64 = fmt32.ufromParts e.toInt si sf := tr_fromParts32 e si sf
+
 theorem source_genUfloatRange_switches (e : Int64) (fb S : UInt64) (l r : Bool) (maxExp minExp : Int32)
     (maxSI minSI F0 F1 si : UInt64) (he : e.toInt32.toInt = e.toInt) (hfb : fb.toNat = fracBits e.toInt S.toNat) :
     Translated.ufloatSwitchSI e fb l maxExp maxSI minExp minSI r S =
